@@ -1,13 +1,19 @@
 #!/bin/bash
-# multiseed.sh <from> <to> [ids...]: run the quick checks under several VERIF_SEED values on the current tree
-# (evidence and replays go to a scratch directory, not to /verif/evidence)
+# multiseed.sh <from> <to> [ids...]: run the quick checks under several VERIF_SEED values.
+# Works on a private copy of the current binaries (so that later rebuilds do not disturb it);
+# evidence and replays go to a scratch directory, not to /verif/evidence.
 from=$1; to=$2; shift 2
 ids=${@:-C13 C19 C18 C17 C08 C06 C20 C14}
 out=${MULTISEED_OUT:-/tmp/nv-multiseed}
-mkdir -p $out
+rm -rf $out; mkdir -p $out/bin
+cp /verif/target/sim/debug/nvsim $out/bin/nvsim
+cp /verif/target/sim-asan/x86_64-unknown-linux-gnu/debug/nvsim $out/bin/nvsim-asan
+cp /verif/target/repo/debug/nitrogql-cli $out/bin/nitrogql-cli
+cp /verif/target/shim.so $out/bin/shim.so
+export NVSIM_CLI=$out/bin/nitrogql-cli NVSIM_SHIM=$out/bin/shim.so NVSIM_ASAN_EXE=$out/bin/nvsim-asan
 for s in $(seq $from $to); do
   for id in $ids; do
-    r=$(VERIF_SEED=$s NVSIM_EVIDENCE_DIR=$out/ev NVSIM_OUT=$out/out /verif/target/sim/debug/nvsim check $id 2>&1 | grep -E "^VIOLATION|class=|HARNESS|nvsim: property.*exit" | cut -c1-300)
+    r=$(VERIF_SEED=$s NVSIM_EVIDENCE_DIR=$out/ev NVSIM_OUT=$out/out $out/bin/nvsim check $id 2>&1 | grep -E "^VIOLATION|^  class=|HARNESS|UNSTABLE|nvsim: property.*exit" | sed 's/ detail=.*//' | cut -c1-200)
     echo "seed=$s $id :: $(echo "$r" | tr '\n' ' ')"
   done
 done
